@@ -1,7 +1,7 @@
 """C17 — compiles and runs are independent of history.
 
  (a) shape B: explicit-state search over sequences of compile requests on ONE
-     Parser object (14 texts: valid ones of different kinds, invalid ones that
+     Parser object (24 texts: valid ones of different kinds, invalid ones that
      fail inside a loop, a routine, a matrix block, an expression, a parameter
      list, at end of input); canonical parser state hashed for de-duplication;
      differential oracle: result, listing and error text equal a fresh Parser's.
@@ -40,6 +40,18 @@ TEXTS = [
     'if 1 begin on all',
     'define f with p begin repeat 2 begin break zz',
     'break',
+    # names introduced by a text that is rejected half-way (parameter p, local loc, global gv, macro mac, routine f)
+    # and texts that probe each of those names afterwards: read it, define it as a macro, as a routine, assign it
+    'assign gv 1 define mac 2 define f with p begin assign loc 3 zz',
+    'print p',
+    'print loc',
+    'print gv',
+    'print mac',
+    'f 1',
+    'define p 7 print p',
+    'define loc with q begin print q end loc 1',
+    'define mac 9 assign gv mac print gv',
+    'assign p 1 assign loc 2 print {p + loc}',
 ]
 
 
